@@ -528,6 +528,15 @@ def worker_main(jobfile, shard, nshards):
                     qbad.append(("fresh-manager", repr(ex)[:200]))
             if qbad:
                 fail(["C03"] + (["C17"] if frozen_ctx else []), f"after {lab['a']}: query answers differ: {qbad[:3]}", eis[0], {"qbad": repr(qbad)[:1500]})
+                return
+        # ---- C12: the original and its pickle round trip under further assignments spelled with equal keys of another type (the last thing done
+        # with these two worlds: the probe changes them)
+        if lab["a"] == "Transfer" and lab.get("kind", "").startswith("pickle") and epi["cur"] is None and w.shadows and not failed_now[0]:
+            stats["alias_probes"] += 1
+            orig, rest = (w.shadows[-1][0], w) if lab["kind"] == "pickle_copy" else (w, w.shadows[-1][0])
+            why = ml.alias_probe(orig, rest)
+            if why:
+                fail(["C12"], f"{lab['kind']}: original and restored manager part ways under the same further assignments: {why}", eis[0], {"why": why})
 
     import random as _random
     erng = _random.Random(f"{job.get('seed', 0)}/{shard}/episodes")
